@@ -1,5 +1,5 @@
 (* C04 — Experiments cannot wedge: quiescence implies a verdict; no hot loop. *)
-From KV Require Import Base.Prelude Base.Cond Model.World Proofs.WorldPlan Proofs.EqbRefl Proofs.WorldInv2 Proofs.WorldInv5 Proofs.WorldQuiet Proofs.F18 Proofs.WorldSucc Proofs.WorldCalm Proofs.WorldRestart.
+From KV Require Import Base.Prelude Base.Cond Model.World Proofs.WorldPlan Proofs.EqbRefl Proofs.WorldInv2 Proofs.WorldInv5 Proofs.WorldQuiet Proofs.F18 Proofs.WorldSucc Proofs.WorldCalm Proofs.WorldRestart Proofs.WorldNames.
 Open Scope Z_scope.
 
 (* The trial controller is never what wedges an experiment: a created, non-completed trial whose job is absent, or
@@ -145,6 +145,16 @@ Theorem C04_no_wedge_all_premises_satisfiable :
               w_sug (run f18_cfg f18_acts) = Some s /\ NoDup (ss_names (s_st s)) /\ e_completed (e_st e) = true.
 Proof. exact f18_premises_hold. Qed.
 Print Assumptions C04_no_wedge_all_premises_satisfiable.
+
+(* The same with the remaining assumption put where it belongs -- on the answers of the algorithm service (fresh_run: every
+   successful reply that is asked for has distinct names not yet in the suggestion) instead of on the state reached. *)
+Theorem C04_no_wedge_fresh : forall c acts e m,
+  valid_cfg c -> no_teardown acts -> fresh_run c acts ->
+  quiescent (run c acts) -> env_done (run c acts) ->
+  w_exp (run c acts) = Some e -> e_max e = Some m ->
+  e_completed (e_st e) = true.
+Proof. exact no_wedge_fresh. Qed.
+Print Assumptions C04_no_wedge_fresh.
 
 (* No hot loop: in a quiescent state a further reconcile of any controller attempts no write and changes nothing in the store. *)
 Theorem C04_no_hot_loop : forall w c key resp,
